@@ -77,7 +77,7 @@ func NewWebSocket(
 		conf: conf,
 	}
 
-	var dialFn transport_quic.DialFunc = func(dctx context.Context, addr string) (*quic.Conn, net.Addr, error) {
+	var dialFn transport_quic.DialFunc = func(dctx context.Context, rpeer peer.ID, addr string) (*quic.Conn, net.Addr, error) {
 		conn, _, err := websocket.Dial(dctx, addr, &websocket.DialOptions{
 			// Negotiate the bifrost quic sub-protocol ID.
 			Subprotocols: []string{transport_quic.Alpn},
@@ -89,7 +89,7 @@ func NewWebSocket(
 		raddr := saddr.NewStringAddr("ws", addr)
 		pc := NewPacketConn(ctx, conn, laddr, raddr)
 		// Negotiate quic session.
-		qconn, _, err := transport_quic.DialSession(ctx, le, quicOpts, pc, tpt.GetIdentity(), raddr, "")
+		qconn, _, err := transport_quic.DialSession(ctx, le, quicOpts, pc, tpt.GetIdentity(), raddr, rpeer)
 		if err != nil {
 			return nil, raddr, err
 		}
